@@ -1027,4 +1027,155 @@ theorem tensorApply_expand {κ : Type} [Zero κ]
 
 end TensorLemmas
 
+/-! ## Block-by-block accumulation and the mixture over consecutive blocks (improvement round 3) -/
+
+section Chunks
+variable {κ : Type} [Field κ]
+
+theorem foldl_add_eq {α : Type} (g : α → κ) : ∀ (l : List α) (a : κ),
+    l.foldl (fun acc p => acc + g p) a = a + (l.map g).sum
+  | [], a => by simp
+  | p :: l, a => by
+    simp only [List.foldl_cons, List.map_cons, List.sum_cons]
+    rw [foldl_add_eq g l (a + g p)]; ring
+
+theorem accumulate_eq_sum (bs : List (List κ × List (List κ))) (d : Nat) :
+    accumulate bs d = (bs.map (fun p => wsumCoord p.1 p.2 d)).sum := by
+  unfold accumulate
+  rw [foldl_add_eq (fun p : List κ × List (List κ) => wsumCoord p.1 p.2 d)]; simp
+
+theorem wsumCoord_take_drop (ws : List κ) (vs : List (List κ)) (d n : Nat) :
+    wsumCoord (ws.take n) (vs.take n) d + wsumCoord (ws.drop n) (vs.drop n) d = wsumCoord ws vs d := by
+  unfold wsumCoord
+  rw [← List.take_zipWith, ← List.drop_zipWith]
+  exact List.sum_take_add_sum_drop _ n
+
+/-- the blocks add up to the one-shot sum, whatever the block lengths -/
+theorem blocks_sum (d : Nat) : ∀ (ns : List Nat) (ws : List κ) (vs : List (List κ)),
+    ((blocks ns ws vs).map (fun p => wsumCoord p.1 p.2 d)).sum = wsumCoord ws vs d
+  | [], ws, vs => by simp [blocks, chunks]
+  | n :: ns, ws, vs => by
+    have ih := blocks_sum d ns (ws.drop n) (vs.drop n)
+    simp only [blocks, chunks, List.zip_cons_cons, List.map_cons, List.sum_cons] at ih ⊢
+    rw [ih]; exact wsumCoord_take_drop ws vs d n
+
+theorem wsumChunked_eq (ns : List Nat) (ws : List κ) (vs : List (List κ)) (d : Nat) :
+    wsumChunked ns ws vs d = wsumCoord ws vs d := by
+  unfold wsumChunked; rw [accumulate_eq_sum, blocks_sum]
+
+theorem accumulate_perm {bs bs' : List (List κ × List (List κ))} (h : bs.Perm bs') (d : Nat) :
+    accumulate bs d = accumulate bs' d := by
+  rw [accumulate_eq_sum, accumulate_eq_sum]
+  exact (h.map _).sum_eq
+
+end Chunks
+
+section Merge
+variable {κ : Type} [Field κ]
+
+theorem maskedExp_nonneg' [LinearOrder κ] [IsOrderedRing κ] (e : κ → κ) (he : ∀ x, 0 < e x) :
+    ∀ (ss : List κ) (m : List Bool), ∀ x ∈ maskedExp e ss m, 0 ≤ x
+  | [], _, x, h => by simp [maskedExp] at h
+  | _ :: _, [], x, h => by simp [maskedExp] at h
+  | s :: ss, b :: m, x, h => by
+    simp only [maskedExp, List.zipWith_cons_cons, List.mem_cons] at h
+    rcases h with rfl | h
+    · cases b
+      · simp
+      · simpa using le_of_lt (he s)
+    · exact maskedExp_nonneg' e he ss m x h
+
+/-- non-negative weights that sum to zero contribute nothing -/
+theorem wsumCoord_zero_of_sum_zero [LinearOrder κ] [IsStrictOrderedRing κ] (d : Nat) : ∀ (ex : List κ) (vs : List (List κ)),
+    (∀ x ∈ ex, 0 ≤ x) → ex.sum = 0 → wsumCoord ex vs d = 0
+  | [], _, _, _ => by simp [wsumCoord]
+  | _ :: _, [], _, _ => by simp [wsumCoord]
+  | x :: ex, v :: vs, hnn, hs => by
+    have hx : 0 ≤ x := hnn x (by simp)
+    have hr : 0 ≤ ex.sum := List.sum_nonneg (fun y hy => hnn y (by simp [hy]))
+    rw [List.sum_cons] at hs
+    have hx0 : x = 0 := by linarith
+    have hr0 : ex.sum = 0 := by linarith
+    have ih := wsumCoord_zero_of_sum_zero d ex vs (fun y hy => hnn y (by simp [hy])) hr0
+    unfold wsumCoord at ih ⊢
+    simp only [List.zipWith_cons_cons, List.sum_cons]
+    rw [ih, hx0]; ring
+
+theorem maskedExp_sum_zero_of_not_kept (e : κ → κ) : ∀ (ss : List κ) (m : List Bool),
+    true ∉ m → (maskedExp e ss m).sum = 0
+  | [], _, _ => by simp [maskedExp]
+  | _ :: _, [], _ => by simp [maskedExp]
+  | s :: ss, b :: m, h => by
+    have hb : b = false := by
+      cases b
+      · rfl
+      · exact absurd (by simp) h
+    have hm : true ∉ m := fun hh => h (by simp [hh])
+    have ih := maskedExp_sum_zero_of_not_kept e ss m hm
+    unfold maskedExp at ih ⊢
+    simp only [List.zipWith_cons_cons, List.sum_cons]
+    rw [ih, hb]; simp
+
+theorem wsumCoord_map_div (Z : κ) (d : Nat) : ∀ (ex : List κ) (vs : List (List κ)),
+    wsumCoord (ex.map (· / Z)) vs d = wsumCoord ex vs d / Z
+  | [], _ => by simp [wsumCoord]
+  | _ :: _, [] => by simp [wsumCoord]
+  | x :: ex, v :: vs => by
+    have ih := wsumCoord_map_div Z d ex vs
+    unfold wsumCoord at ih ⊢
+    simp only [List.map_cons, List.zipWith_cons_cons, List.sum_cons]
+    rw [ih]; ring
+
+theorem sum_map_div' (Z : κ) : ∀ (ex : List κ), (ex.map (· / Z)).sum = ex.sum / Z
+  | [] => by simp
+  | x :: ex => by
+    simp only [List.map_cons, List.sum_cons]
+    rw [sum_map_div' Z ex]; ring
+
+theorem weights_some (th e : κ → κ) (fl : Flavour κ) (q : List κ) (ks : List (List κ)) (m : List Bool) :
+    weights th e fl q ks (some m) =
+      (maskedExp e (ks.map (score th fl q)) m).map (· / (maskedExp e (ks.map (score th fl q)) m).sum) := by
+  simp [weights, softmaxMasked, effMask]
+
+theorem attend_getD_wsum (th e : κ → κ) (fl : Flavour κ) (D : Nat) (q : List κ) (ks vs : List (List κ))
+    (mask : Option (List Bool)) (d : Nat) (hd : d < D) :
+    (attend th e fl D q ks vs mask).getD d 0 = wsumCoord (weights th e fl q ks mask) vs d := by
+  simp [attend, List.getD_eq_getElem?_getD, hd]
+
+/-- one block: share × the block's own attention = the block's part of the numerator over the global `Z` -/
+theorem blockTerm_eq [LinearOrder κ] [IsStrictOrderedRing κ] (th e : κ → κ) (he : ∀ x, 0 < e x) (fl : Flavour κ) (D : Nat) (q : List κ) (d : Nat)
+    (hd : d < D) (Z : κ) (ks vs : List (List κ)) (m : List Bool) :
+    blockTerm th e fl D q d ((maskedExp e (ks.map (score th fl q)) m).map (· / Z)) ks vs m =
+      wsumCoord (maskedExp e (ks.map (score th fl q)) m) vs d / Z := by
+  set ex := maskedExp e (ks.map (score th fl q)) m with hex
+  have hnn : ∀ x ∈ ex, 0 ≤ x := maskedExp_nonneg' e he _ _
+  unfold blockTerm
+  split_ifs with hk
+  · rw [attend_getD_wsum th e fl D q ks vs (some m) d hd, weights_some, ← hex, wsumCoord_map_div, sum_map_div']
+    by_cases hZ : ex.sum = 0
+    · rw [wsumCoord_zero_of_sum_zero d ex vs hnn hZ, hZ]; simp
+    · field_simp
+  · rw [wsumCoord_zero_of_sum_zero d ex vs hnn (maskedExp_sum_zero_of_not_kept e _ m hk)]; simp
+
+theorem maskedExp_take (e : κ → κ) (sc : List κ → κ) (ks : List (List κ)) (m : List Bool) (n : Nat) :
+    maskedExp e ((ks.take n).map sc) (m.take n) = (maskedExp e (ks.map sc) m).take n := by
+  unfold maskedExp; rw [List.take_zipWith, List.map_take]
+
+theorem maskedExp_drop (e : κ → κ) (sc : List κ → κ) (ks : List (List κ)) (m : List Bool) (n : Nat) :
+    maskedExp e ((ks.drop n).map sc) (m.drop n) = (maskedExp e (ks.map sc) m).drop n := by
+  unfold maskedExp; rw [List.drop_zipWith, List.map_drop]
+
+theorem mergeBlocks_eq [LinearOrder κ] [IsStrictOrderedRing κ] (th e : κ → κ) (he : ∀ x, 0 < e x) (fl : Flavour κ) (D : Nat) (q : List κ) (d : Nat)
+    (hd : d < D) (Z : κ) : ∀ (ns : List Nat) (ks vs : List (List κ)) (m : List Bool),
+    mergeBlocks th e fl D q d ns ((maskedExp e (ks.map (score th fl q)) m).map (· / Z)) ks vs m =
+      wsumCoord (maskedExp e (ks.map (score th fl q)) m) vs d / Z
+  | [], ks, vs, m => by
+    simp only [mergeBlocks]; exact blockTerm_eq th e he fl D q d hd Z ks vs m
+  | n :: ns, ks, vs, m => by
+    simp only [mergeBlocks]
+    rw [← List.map_take, ← List.map_drop, ← maskedExp_take, ← maskedExp_drop,
+      blockTerm_eq th e he fl D q d hd Z, mergeBlocks_eq th e he fl D q d hd Z ns,
+      maskedExp_take, maskedExp_drop, ← add_div, wsumCoord_take_drop]
+
+end Merge
 end PdtVerif.Attention
